@@ -91,11 +91,19 @@ class Pair(Ty):
         return self._sort.snd(p)
 
 
+ELEM_TYPES = {}   # element types for which Bag/Set were built (collection axioms are generated per element sort)
+
+
+def _sname(e):
+    return e.name.replace("[", "_").replace("]", "_").replace(",", "_")
+
+
 class Bag(Ty):
     """A list whose order is not modelled: element -> multiplicity."""
 
     def __init__(self, e):
         self.e = e
+        ELEM_TYPES.setdefault(e.name, e)
         self.name = f"Bag[{e.name}]"
         self._sort = z3.ArraySort(e.sort(), I)
 
@@ -106,6 +114,7 @@ class Bag(Ty):
 class Set(Ty):
     def __init__(self, e):
         self.e = e
+        ELEM_TYPES.setdefault(e.name, e)
         self.name = f"Set[{e.name}]"
         self._sort = z3.ArraySort(e.sort(), B)
 
